@@ -1,7 +1,10 @@
 package rules
 
 import (
+	"go/token"
 	"strings"
+
+	"golang.org/x/tools/go/ssa"
 
 	"cadcheck/core"
 )
@@ -95,6 +98,50 @@ func c11(r *core.Run) {
 		return isMethodOf(key, checked, arithMethods...)
 	})
 	r.Floor("R4.ownconst", 40)
+
+	// R6 unbounded integers are computed on big.Int: the arithmetic methods of Int and UInt perform no native Go arithmetic on
+	// words extracted with (*big.Int).Int64/Uint64 — a "machine word fast path" wraps at the word boundary
+	// (MinInt64 / -1, or a multi-word operand read through Uint64()) although the type is unbounded
+	{
+		arith := map[string]bool{"Plus": true, "Minus": true, "Mul": true, "Div": true, "Mod": true, "Negate": true, "SaturatingPlus": true, "SaturatingMinus": true, "SaturatingMul": true, "SaturatingDiv": true}
+		n := 0
+		w := r.W
+		for _, rel := range []string{"values", "interpreter"} {
+			for _, fn := range w.SrcFuncsIn(rel) {
+				if fn.Parent() != nil || fn.Signature.Recv() == nil || !arith[fn.Name()] {
+					continue
+				}
+				if _, recv := core.TypeName(fn.Signature.Recv().Type()); recv != "IntValue" && recv != "UIntValue" {
+					continue
+				}
+				n++
+				var bad []string
+				core.Instrs(fn, true, func(in ssa.Instruction) {
+					bo, ok := in.(*ssa.BinOp)
+					if !ok {
+						return
+					}
+					switch bo.Op {
+					case token.ADD, token.SUB, token.MUL, token.QUO, token.REM:
+					default:
+						return
+					}
+					for _, op := range []ssa.Value{bo.X, bo.Y} {
+						lv := core.OriginLeavesVia(op)
+						if strings.Contains(lv, "via:Int64") || strings.Contains(lv, "via:Uint64") {
+							bad = append(bad, bo.Op.String()+" at "+w.Pos(bo.Pos()))
+						}
+					}
+				})
+				r.Check(len(bad) == 0, "R6.unbounded", core.SSAKey(fn)+": arithmetic on big.Int only", fn.Pos(), "no native arithmetic on extracted machine words",
+					"native Go arithmetic on machine words extracted from the big.Int operands ("+strings.Join(uniq(bad), ", ")+"): the unbounded type wraps or truncates at the 64-bit boundary on that path")
+			}
+		}
+		if n == 0 {
+			r.Undecided("R6.unbounded", "Int/UInt arithmetic methods", "none found")
+		}
+	}
+	r.Floor("R6.unbounded", 10)
 }
 
 func c12(r *core.Run) {
